@@ -26,7 +26,8 @@ TEXTS["C01"] = dict(
                "has already been released for the key (same target/different root, surround, surrounded, advance, boundary values up to 2^64-1), single and "
                "batched, by name/key/both, batches repeating a key; half the runs execute phases of 2-5 requests concurrently under the seeded scheduler; "
                "clean restarts and crash restarts (directory image) occur between requests. Every released signature is BLS-verified and compared pairwise "
-               "with every earlier one for the key. Exploration over histories is what the property quantifies over.",
+               "with every earlier one for the key; a quarter of the concurrent histories meet transient storage errors. One worker runs free-running parallel batches (real goroutines on all "
+               "processors) and attributes every signature to the key it actually verifies under. Exploration over histories is what the property quantifies over.",
     level_note=TRUST)
 TEXTS["C02"] = dict(
     technique="deterministic simulation: seeded conflict-seeking proposal histories with restarts; pairwise ledger oracle, strict slot order in sequential histories",
@@ -55,7 +56,7 @@ TEXTS["C08"] = dict(
     level_text="Seeded search over request kind, batch size (1..512) and GOMAXPROCS (1..128), with scatter workers of small batches released in drawn order by the "
                "scheduler: every signature returned by the real gRPC signer handlers is BLS-verified under the public key of the account addressed at that position over a "
                "signing root recomputed by an independent merkleiser, and the response must have exactly one entry per request; an eighth of the rounds put 2-3 batch requests over disjoint "
-               "keys in flight at once under the scheduler (sometimes behind a refused batch). The same monitor (M2) is active in "
+               "keys in flight at once under the scheduler (sometimes behind a refused batch); one worker runs such batches free-running on all processors. The same monitor (M2) is active in "
                "every other simulated run of the suite. Exploration: the property quantifies over inputs x degree of parallelism.",
     level_note=TRUST + " 'Well-formed' means 32-byte roots and domains; other lengths are C06/C20 territory.")
 TEXTS["C09"] = dict(
@@ -105,14 +106,15 @@ TEXTS["C16"] = dict(
                "checks every contribution the transport carries (here and in seeded generations with drawn n, t and id sets): the share equals the originator's vector evaluated at the "
                "recipient's id and at no other participant's id; a peer replaying a consistent contribution gets only its own share back. A sixteenth worker runs a 50-case credential x message "
                "table over real gRPC/TLS against an instance whose peers are named like the repository's signer certificates (after a genuine peer has opened the session): only a caller whose "
-               "verified leaf certificate names a peer is honoured - a peer's public certificate riding along in a client's chain is not - and the genuine peer's session survives.",
+               "verified leaf certificate names a peer is honoured - a peer's public certificate riding along in a client's chain is not - and the genuine peer's session survives; another worker lets "
+               "genuine peers and ordinary clients use that edge at the same time (free-running, ~100 000 requests): no client is ever taken for a peer.",
     level_note=TRUST2 + " In the simulated cluster peer identity is the authenticated name injected into the context as the TLS interceptor does; the TLS-edge table exercises the interceptor itself (as does C19).")
 TEXTS["C17"] = dict(
     technique="deterministic cluster simulation with fake clock: seeded prepare/execute/commit/abort/clock-advance sequences vs. a reference session lifecycle fed by observed transport facts",
     level_text="Seeded search over event sequences (8-31 events, 1-3 account names, 3 real instances, generation timeout 1 ms .. 10 min on the synctest fake clock, clock advances landing 1 ns "
                "before / exactly on / 1 ns after a session's expiry) issued by the harness as coordinator through the real receiver handlers. A reference lifecycle per (instance, account), "
                "updated only from observed facts (which contribution exchanges the transport completed, which calls succeeded), is checked in exactly the directions the property states; "
-               "partial progress of a failed execute and the instant exactly at the timeout are left undecided.",
+               "partial progress of a failed execute and the instant exactly at the timeout are left undecided. One worker sends 2-11 prepare (then abort) messages for one name to one instance at the same instant, free-running: exactly one is accepted.",
     level_note=TRUST2)
 TEXTS["C14"] = dict(
     technique="deterministic cluster simulation: real DKG then adversarially routed conflicting duties, concurrent per-instance interleavings, crash/clean restarts; threshold-count oracle on BLS-valid partial signatures",
